@@ -106,7 +106,7 @@ pub fn run(ctx: &mut Ctx) {
     let canaries: Vec<String> = vec![
         "CANARYUSER".into(), "CANARYPASS".into(), "CANARYWRONGUSER".into(), "CANARYWRONGPASS".into(), tok_valid.clone(), tok_wrong.clone(),
         "CANARYBEARER".into(), "CANARYAUTHZ".into(), "CANARYCOOKIE".into(), "CANARYSNI".into(), "CANARYBADSNI".into(), "CANARYCONFPASS".into(),
-        "CANARYRAWVALUE".into(),
+        "CANARYRAWVALUE".into(), "CANARYNOCOLON".into(), b64("CANARYNOCOLON"), b64("CANARYUSER:"), b64(":CANARYPASS"),
     ];
     let authn: Arc<dyn Authenticator> = Arc::new(Scripted { tokens: vec![tok_valid.clone()], snis: vec!["CANARYSNI".into()] });
     let core = make_core(authn.clone(), None);
@@ -244,6 +244,127 @@ pub fn run(ctx: &mut Ctx) {
             let _ = tokio::time::timeout(std::time::Duration::from_secs(5), h1_session(&core, "localhost", None, raw, 300)).await;
         });
         check(ctx, "reverse proxy h1 with Authorization / Cookie / Proxy-Authorization");
+    }
+    // ---- the real forwarders (nothing scripted): SOCKS5 upstream with and without an authenticator in front (without
+    // one the client's Proxy-Authorization travels to the upstream dialogue), plain and extended authentication, an
+    // upstream that refuses the credentials / the request / every method / says nothing; the direct forwarder
+    // against a closed port. Real sockets, real clock.
+    {
+        use std::io::{Read, Write};
+        use std::time::Duration;
+        // behaviour by the first byte of the port's index: 0 auth fails, 1 auth passes then request refused, 2 no acceptable method, 3 mute
+        let mut proxies: Vec<(u8, std::net::SocketAddr)> = vec![];
+        for mode in 0u8..4 {
+            let l = std::net::TcpListener::bind("127.0.0.1:0").unwrap();
+            proxies.push((mode, l.local_addr().unwrap()));
+            std::thread::spawn(move || {
+                for s in l.incoming() {
+                    let Ok(mut s) = s else { continue };
+                    std::thread::spawn(move || {
+                        let _ = s.set_read_timeout(Some(Duration::from_millis(400)));
+                        let mut buf = [0u8; 1024];
+                        let Ok(n) = s.read(&mut buf) else { return };
+                        if n < 3 || mode == 3 {
+                            std::thread::sleep(Duration::from_millis(400));
+                            return;
+                        }
+                        if mode == 2 {
+                            let _ = s.write_all(&[5, 0xff]);
+                            return;
+                        }
+                        // pick the first authentication method offered (0x02 / 0x80), else none
+                        let methods = &buf[2..n.min(2 + buf[1] as usize)];
+                        let m = methods.iter().copied().find(|m| *m == 2 || *m == 0x80).unwrap_or(0);
+                        let _ = s.write_all(&[5, m]);
+                        if m != 0 {
+                            let _ = s.read(&mut buf);
+                            let _ = s.write_all(&[1, if mode == 0 { 1 } else { 0 }]);
+                            if mode == 0 {
+                                return;
+                            }
+                        }
+                        let _ = s.read(&mut buf);
+                        let _ = s.write_all(&[5, 5, 0, 1, 0, 0, 0, 0, 0, 0]);
+                    });
+                }
+            });
+        }
+        let closed_port = {
+            let l = std::net::TcpListener::bind("127.0.0.1:0").unwrap();
+            l.local_addr().unwrap().port()
+        };
+        let mut real_auth_headers = auth_headers.clone();
+        real_auth_headers.push(("nocolon", vec![("proxy-authorization".into(), format!("Basic {}", b64("CANARYNOCOLON")).into_bytes())]));
+        real_auth_headers.push(("emptypass", vec![("proxy-authorization".into(), format!("Basic {}", b64("CANARYUSER:")).into_bytes())]));
+        real_auth_headers.push(("emptyuser", vec![("proxy-authorization".into(), format!("Basic {}", b64(":CANARYPASS")).into_bytes())]));
+        let rt = tokio::runtime::Builder::new_multi_thread().worker_threads(2).enable_all().build().unwrap();
+        for with_authn in [false, true] {
+            for fwd in 0..9usize {
+                // 0..8: SOCKS5 (mode, extended), 8: direct
+                let b = Settings::builder()
+                    .listen_address(("127.0.0.1", 1))
+                    .unwrap()
+                    .listen_protocols(ListenProtocolSettings { http1: Some(Http1Settings::builder().build()), http2: Some(Http2Settings::builder().build()), quic: None })
+                    .allow_private_network_connections(true)
+                    .clients(vec![trusttunnel::authentication::registry_based::Client { username: "CANARYCONFUSER".into(), password: "CANARYCONFPASS".into() }]);
+                let (b, fname) = if fwd < 8 {
+                    let (mode, addr) = proxies[fwd / 2];
+                    let ext = fwd % 2 == 1;
+                    (
+                        b.forwarder_settings(ForwardProtocolSettings::Socks5(
+                            Socks5ForwarderSettings::builder().server_address(addr).unwrap().extended_auth(ext).build().unwrap(),
+                        )),
+                        format!("socks5 upstream ({}, extended_auth={})", ["refuses the credentials", "accepts them and refuses the request", "accepts no method", "stays silent"][mode as usize], ext),
+                    )
+                } else {
+                    (b, "direct forwarder, closed port".to_string())
+                };
+                let hosts = TlsHostsSettings::builder()
+                    .main_hosts(vec![TlsHostInfo { hostname: "localhost".into(), cert_chain_path: FIXTURE_PEM.into(), private_key_path: FIXTURE_PEM.into(), allowed_sni: vec![] }])
+                    .build()
+                    .unwrap();
+                let core = Core::new(b.build().unwrap(), if with_authn { Some(authn.clone()) } else { None }, hosts, Shutdown::new()).unwrap();
+                let mute = fwd < 8 && proxies[fwd / 2].0 == 3;
+                for (k, (aname, ahdrs)) in real_auth_headers.iter().enumerate() {
+                    if mute && !ctx.thorough() && k % 3 != 0 {
+                        continue;
+                    }
+                    for authority in [format!("127.0.0.1:{}", closed_port), "_udp2".to_string(), "example.org:443".to_string()] {
+                        if fwd == 8 && authority == "example.org:443" {
+                            continue; // would go to the real resolver
+                        }
+                        verif::hooks::reset();
+                        let mut raw = format!("CONNECT {} HTTP/1.1\r\n", authority).into_bytes();
+                        for (hn, hv) in ahdrs {
+                            raw.extend_from_slice(hn.as_bytes());
+                            raw.extend_from_slice(b": ");
+                            raw.extend_from_slice(hv);
+                            raw.extend_from_slice(b"\r\n");
+                        }
+                        raw.extend_from_slice(b"\r\n");
+                        if authority == "_udp2" {
+                            // one datagram, so that the multiplexer opens its upstream association
+                            let mut rec = vec![0u8, 0, 0, 0];
+                            let mut body = vec![];
+                            crate::c06::put_ip16(&mut body, &"127.0.0.1".parse().unwrap());
+                            body.extend_from_slice(&4000u16.to_be_bytes());
+                            crate::c06::put_ip16(&mut body, &"127.0.0.1".parse().unwrap());
+                            body.extend_from_slice(&closed_port.to_be_bytes());
+                            body.push(0);
+                            body.extend_from_slice(b"hi");
+                            let n = body.len() as u32;
+                            rec.copy_from_slice(&n.to_be_bytes());
+                            rec.extend_from_slice(&body);
+                            raw.extend_from_slice(&rec);
+                        }
+                        let core2 = &core;
+                        let _ = rt.block_on(async move { tokio::time::timeout(Duration::from_secs(3), h1_session(core2, "localhost", None, raw, 250)).await });
+                        check(ctx, &format!("real forwarder: {}, authenticator {}, CONNECT {} auth={}", fname, if with_authn { "configured" } else { "absent" }, authority, aname));
+                        ctx.stat("real_forwarder_scenarios");
+                    }
+                }
+            }
+        }
     }
     // ---- the same over HTTP/3: real QUIC listener (its own log lines included), wall clock ---------------------------
     {
